@@ -2,6 +2,8 @@ import Grexv.Model.RegExp
 import Grexv.Lemmas.Lines
 import Grexv.Lemmas.Presentation
 import Grexv.Lemmas.EndToEnd
+import Grexv.Lemmas.Search
+import Grexv.Props.C03
 
 /-!
 # C08 — anchor options
@@ -126,5 +128,35 @@ theorem printed_items_independent_of_anchors (cap esc ns ne : Bool) (e : Expr) (
     Spec.parse (fmtRegExp (cfgAnch cap esc ns ne) e) =
       some (⟨false, false⟩, Spec.catList (preA ns ++ (topItems cap esc e ++ postA ne))) :=
   parse_printedA cap esc ns ne e hwf
+
+/-- **C08, the search half, where it is a theorem** (start anchor disabled, end anchor in place; every subset of the class options,
+with or without capturing groups and `-e`, case-sensitive): for every non-empty test case `t`, `Regex::find` — leftmost start, first
+alternative in priority order — on `t` returns the whole of `t`: with `$` in place every match that starts at offset 0 ends at the end.
+(With the end anchor disabled the statement is false: known finding D8.) -/
+theorem search_spans_with_end_anchor (cfg : Config) (hp : PlainPrintCI cfg) (hci : cfg.ci = false)
+    (hns : cfg.noStart = true) (hne' : cfg.noEnd = false) (env : Env) (ws : List Str) (st : Stages)
+    (h : regExpFrom cfg env ws = .ok st) (hseg : ∀ w ∈ ws, SegOK env w) (t : Str) (ht : t ∈ ws) (hne : t ≠ []) :
+    ∃ P, Spec.parse (fmtRegExp cfg st.finalAst) = some (⟨false, false⟩, P) ∧ Spec.find false P t = some (0, t.length) := by
+  have hsc : ∀ c ∈ t, Scalar c := by
+    obtain ⟨h1, h2⟩ := hseg t ht
+    intro c hc
+    rw [← h2] at hc
+    obtain ⟨p, hp', hcp⟩ := List.mem_flatten.mp hc
+    exact (h1 p hp').2 c hcp
+  have hst : storedCases cfg env ws = ws := by simp [storedCases, hci]
+  obtain ⟨hwf, hlang⟩ := final_expr_exact cfg hp.rep hp.anch env ws st h (by rw [hst]; exact hseg) (by rw [hst]; exact ⟨t, ht, hne⟩)
+  have hself : st.finalAst.strLang false t := by
+    apply (hlang false t).mpr
+    rw [hst]
+    refine ⟨t, ht, hne, ?_⟩
+    have : ∀ u : Str, u.map (convAtom cfg) = u.map (Props.C03.docAtom cfg) :=
+      fun u => List.map_congr_left (fun c _ => Props.C03.convAtom_documented cfg c)
+    rw [this]
+    exact Props.C03.generalises_self cfg t
+  have := printed_find_eol false cfg.cap cfg.esc st.finalAst hwf t hsc hself
+  rw [fmtRegExp_plainCI_eq cfg hp, hci, hns, hne']
+  exact this
+
+example : PlainPrintCI { noStart := true } := ⟨rfl, rfl, rfl, rfl, rfl⟩
 
 end Grexv.Props.C08
